@@ -406,7 +406,7 @@ func c15Stores(c *h.Ctx, id string, r *rand.Rand) {
 	cm, cb := mk(ms.store), mk(bs.store)
 	var hist []string
 	var names []enc.Name
-	objs := []string{"/o/a", "/o/a/b", "/o/c"}
+	objs := []string{"/o/a", "/o/a/b", "/o/c", "/o/32=a", "/o/a/32=b"} // incl. siblings that differ only in the component type
 	for step := 0; step < 6+r.Intn(8); step++ {
 		on, _ := enc.NameFromStr(objs[r.Intn(len(objs))])
 		if r.Intn(4) != 0 {
